@@ -697,11 +697,14 @@ theorem textfieldDraw_body_eq_model (R : Ro) (c : Ctx) (st : Nat) (value : List 
          | .ok s => .ok (.tup (.surf s) .nil)
          | .error p => .error (.panic p)) := by
   have hsz : surfaceArgs "textfield.TextField.Draw" 0 = (.maxW, .lit 1) := by decide
+  -- whichever way round the comparisons with 0 are written
+  have g0 : ((0 : UInt16) = c.maxW) ↔ (c.maxW = 0) := eq_comm
+  have g1 : ((0 : UInt16) = c.maxH) ↔ (c.maxH = 0) := eq_comm
   by_cases h0 : c.maxW = 0 <;> by_cases h1 : c.maxH = 0
-  · simp [SurfaceBodies.textfieldDraw, SurfaceBodies.textfieldDrawParams, drawField, h0, h1, ofInt_zero]
-  · simp [SurfaceBodies.textfieldDraw, SurfaceBodies.textfieldDrawParams, drawField, h0, h1, ofInt_zero]
-  · simp [SurfaceBodies.textfieldDraw, SurfaceBodies.textfieldDrawParams, drawField, h0, h1, ofInt_zero]
-  · simp [SurfaceBodies.textfieldDraw, SurfaceBodies.textfieldDrawParams, drawField, h0, h1, ofInt_zero, ofInt_one, hv, hsty, hcur,
+  · simp [SurfaceBodies.textfieldDraw, SurfaceBodies.textfieldDrawParams, drawField, g0, g1, h0, h1, ofInt_zero]
+  · simp [SurfaceBodies.textfieldDraw, SurfaceBodies.textfieldDrawParams, drawField, g0, g1, h0, h1, ofInt_zero]
+  · simp [SurfaceBodies.textfieldDraw, SurfaceBodies.textfieldDrawParams, drawField, g0, g1, h0, h1, ofInt_zero]
+  · simp [SurfaceBodies.textfieldDraw, SurfaceBodies.textfieldDrawParams, drawField, g0, g1, h0, h1, ofInt_zero, ofInt_one, hv, hsty, hcur,
       newSurfaceFor, hsz, evalSz]
     rw [loopW_iterW R _ 8 _
       (fun (a : TFSt) => { ρ := [("r", .wid 0), ("v0", .ctx c), ("v1", .surf a.2.2.2.2.1), ("v2", .int a.2.2.1), ("v3", .u16 a.2.2.2.1),
